@@ -110,6 +110,7 @@ func (e *Engine) typeID(t types.Type) int64 {
 	}
 	id := int64(len(e.typeIDs) + 1)
 	e.typeIDs[k] = id
+	e.typeObjs = append(e.typeObjs, t)
 	return id
 }
 
@@ -139,6 +140,10 @@ func (fx *FuncCtx) assertTo(st *State, iv IfaceV, to types.Type) (Term, Val) {
 		// interface-to-interface assertion: implements(typeOf(x), iface)
 		name := "implements_" + smtName(types.TypeString(to, func(p *types.Package) string { return p.Name() }))
 		fx.declFun(name, []Sort{SInt}, SBool)
+		if fx.implIfaces == nil {
+			fx.implIfaces = map[string]types.Type{}
+		}
+		fx.implIfaces[name] = to
 		c := app(SBool, name, app(SInt, "typeOf", iv.T))
 		fx.declare("(declare-const nilIface Iface)")
 		return And(c, Not(Eq(iv.T, Term{"nilIface", SIfc}))), IfaceV{T: iv.T, GT: to}
@@ -368,6 +373,10 @@ func (fx *FuncCtx) callInterface(st *State, sel *ast.SelectorExpr, s *types.Sele
 			fx.unsupportedf("call to %s: no contract and no body", qn)
 		}
 	}
+	// dynamic type fixed by the contract (hasType): static dispatch to the concrete method
+	if v, ok := fx.dispatchKnownType(st, sel, s, call); ok {
+		return v
+	}
 	// methods declared pure in a contract file: uninterpreted functions of the receiver
 	if key, ok := fx.pureKey(s.Obj().(*types.Func), recvT); ok {
 		recv, isI := fx.eval(st, sel.X).(IfaceV)
@@ -428,17 +437,27 @@ func (fx *FuncCtx) pureApp(st *State, key string, sig *types.Signature, recv Ter
 		sorts = append(sorts, a.Sort)
 		all = append(all, a)
 	}
-	if sig.Results().Len() != 1 {
-		fx.unsupportedf("pure method %s must have one result", key)
+	if sig.Results().Len() == 0 {
+		fx.unsupportedf("pure method %s must have a result", key)
 	}
-	rt := sig.Results().At(0).Type()
-	rs := fx.sortOf(rt)
-	fx.declFun(name, sorts, rs)
-	r := app(rs, name, all...)
-	if k, ok := intInfo(rt); ok && st != nil && fx.inQuant == 0 {
-		st.assume(k.rangeOf(r))
+	mk := func(i int, fn string) Val {
+		rt := sig.Results().At(i).Type()
+		rs := fx.sortOf(rt)
+		fx.declFun(fn, sorts, rs)
+		r := app(rs, fn, all...)
+		if k, ok := intInfo(rt); ok && st != nil && fx.inQuant == 0 {
+			st.assume(k.rangeOf(r))
+		}
+		return fx.wrapElem(r, rt)
 	}
-	return fx.wrapElem(r, rt)
+	if sig.Results().Len() == 1 {
+		return mk(0, name)
+	}
+	var out TupleV
+	for i := 0; i < sig.Results().Len(); i++ {
+		out = append(out, mk(i, fmt.Sprintf("%s_%d", name, i)))
+	}
+	return out
 }
 
 func (fx *FuncCtx) specPureCall(env *specEnv, x *ast.CallExpr, name string) (sval, bool) {
@@ -937,4 +956,95 @@ func (fx *FuncCtx) linkPureMethods(st *State, boxed Term, v Val, from types.Type
 			st.assume(Eq(pt, rt))
 		}
 	}
+}
+
+// hintTypes: the concrete types named in hasType(...) clauses of the contract.
+func (fx *FuncCtx) hintTypes() []types.Type {
+	if fx.hintDone {
+		return fx.hints
+	}
+	fx.hintDone = true
+	if fx.con == nil {
+		return nil
+	}
+	seen := map[string]bool{}
+	var visit func(e ast.Expr)
+	visit = func(e ast.Expr) {
+		ast.Inspect(e, func(n ast.Node) bool {
+			if c, ok := n.(*ast.CallExpr); ok {
+				if id, ok := c.Fun.(*ast.Ident); ok && id.Name == "hasType" && len(c.Args) == 2 {
+					func() {
+						defer func() { recover() }()
+						t := fx.specType(&specEnv{fx: fx}, c.Args[1])
+						k := types.TypeString(t, nil)
+						if !seen[k] {
+							seen[k] = true
+							fx.hints = append(fx.hints, t)
+							fx.eng.typeID(t)
+						}
+					}()
+				}
+			}
+			return true
+		})
+	}
+	for _, r := range fx.con.Requires {
+		visit(r.Expr)
+	}
+	if fx.con.Valid != nil {
+		visit(fx.con.Valid.Expr)
+	}
+	return fx.hints
+}
+
+// dispatchKnownType: if the hypotheses fix the dynamic type of the receiver to
+// one of the contract's hint types, call that type's method.
+func (fx *FuncCtx) dispatchKnownType(st *State, sel *ast.SelectorExpr, s *types.Selection, call *ast.CallExpr) (Val, bool) {
+	hints := fx.hintTypes()
+	if len(hints) == 0 || fx.inlineDepth > 3 {
+		return nil, false
+	}
+	rv := fx.eval(st, sel.X)
+	iv, ok := rv.(IfaceV)
+	if !ok {
+		return nil, false
+	}
+	fx.declFun("typeOf", []Sort{SIfc}, SInt)
+	for _, t := range hints {
+		key := iv.T.S + "|" + types.TypeString(t, nil)
+		known, cached := fx.dynKnown[key]
+		if !cached {
+			goal := Eq(app(SInt, "typeOf", iv.T), IntLit(fx.eng.typeID(t)))
+			known = fx.proves(st.hypTerms(), goal, 2000)
+			if fx.dynKnown == nil {
+				fx.dynKnown = map[string]bool{}
+			}
+			fx.dynKnown[key] = known
+		}
+		if !known {
+			continue
+		}
+		obj, _, _ := types.LookupFieldOrMethod(t, true, fx.pkg.Types, s.Obj().Name())
+		m, ok := obj.(*types.Func)
+		if !ok {
+			continue
+		}
+		_, recv := fx.assertTo(st, iv, t)
+		msig := m.Type().(*types.Signature)
+		// receiver adaptation (pointer vs value)
+		if _, wantPtr := msig.Recv().Type().Underlying().(*types.Pointer); !wantPtr {
+			if p, isP := recv.(PtrV); isP {
+				recv = fx.loadHeap(st, p.prefix(), p.Ref, p.Elem)
+			}
+		}
+		args := fx.evalArgs(st, msig, call)
+		qn := funcQName(m)
+		if con := fx.eng.contractFor(qn); con != nil && !con.Inline {
+			return fx.applyContract(st, con, m, recv, msig.Recv().Type(), args, call), true
+		}
+		if fd, pkg := fx.eng.funcDecl(m); fd != nil && fd.Body != nil {
+			return fx.inlineCall(st, m, fd, pkg, recv, args, call), true
+		}
+	}
+	return nil, false
 }
